@@ -94,6 +94,7 @@ func (de Enumeration) String() string {
 }
 
 func NewDirectiveType(s string) (Enumeration, error) {
+	verifYield("directive-table")
 	eeOnce.Do(func() {
 		ee = make(map[string]Enumeration)
 		for i := 0; i < len(ss); i++ {
